@@ -65,6 +65,11 @@ def find_accumulation(text: T):
                 yield (r.a[0], T("bin", ("+", l, r.a[1])), T("bin", ("+", l, r.a[2])))
             if l.op == "ite":
                 yield (l.a[0], T("bin", ("+", l.a[1], r)), T("bin", ("+", l.a[2], r)))
+            if r.op == "slice" and len(r.a) == 3 and r.a[1].op == "ite" and r.a[2] == const(None):
+                # acc + data[(K if start else 0):] is acc + data[K:] on the START record and acc + data otherwise
+                def _cut(k):
+                    return r.a[0] if k == const(0) else T("slice", (r.a[0], k, r.a[2]))
+                yield (r.a[1].a[0], T("bin", ("+", l, _cut(r.a[1].a[1]))), T("bin", ("+", l, _cut(r.a[1].a[2]))))
 
     for x0 in sym.walk(cur):
         for (c, a, b) in cases(x0):
@@ -176,6 +181,21 @@ def check(repo: Repo, run: Run) -> None:
                                  f"({want} bytes): " + ("header bytes are taken for text" if (K or 0) < want else "text bytes are lost"),
                    facts={"K": K, "header_words": words},
                    witness="a path/string whose first chunk is full (24 / 16 text bytes): compare the first characters")
+            whole = T("attr", (ev, "data"))
+
+            def _start_takes_whole(t, not_start):
+                if t.op == "ite":
+                    atom, pol = render.norm_bool(t.a[0])
+                    if _bit_test(atom, ev, START_BIT):
+                        return _start_takes_whole(t.a[1], not pol if not not_start else True) or \
+                            _start_takes_whole(t.a[2], pol if not not_start else True)
+                    return _start_takes_whole(t.a[1], not_start) or _start_takes_whole(t.a[2], not_start)
+                return t.op == "bin" and t.a[0] == "+" and t.a[2] == whole and not not_start
+            shadow = any(x.op == "ite" and _start_takes_whole(x, False) for x in sym.walk(text))
+            ob("R1", module, scope, "no branch gives a START record's whole data to the text", not shadow,
+                   "a record carrying the START bit can take a branch that appends its whole data (the branch is chosen by another "
+                   "test first): the header bytes of a text that fits one record (START and END on the same record) become text",
+                   witness="a text short enough for one record: qualifier START|END")
             ob("R1", module, scope, "chunks concatenated in record order", order_ok,
                    "chunks are not appended to the right of the accumulated text (order reversed or slice bounded)", nontrivial=False)
             ob("R1", module, scope, "every NUL removed before decoding", nul is True and dec,
